@@ -1,6 +1,6 @@
-(* C04Shape.v — non-interference of the SQL text: the statement compiled for a query does not depend on the
-   characters of its String literals (they travel as bound parameters only), provided no variable is captured
-   by a literal (class 3). *)
+(* C04Shape.v — non-interference of the SQL text: the statement compiled for a query depends neither on the
+   characters of the query's String literals nor on the characters of the model's String default values — they
+   all travel as bound parameters (query.rs after e64e320 and 936f709). *)
 From DV Require Import Codec Sql Run_C04 C05Order C05Sql.
 Open Scope list_scope.
 
@@ -22,7 +22,19 @@ Definition same_shape (q q' : query) : Prop :=
   q_alias q = q_alias q' /\ q_sel q = q_sel q' /\ Forall2 shape_filter (q_filters q) (q_filters q') /\
   q_order q = q_order q' /\ q_first q = q_first q' /\ q_skip q = q_skip q' /\ shape_paging (q_paging q) (q_paging q').
 
-(* two parameter lists that differ only in the text of internal (literal) entries *)
+(* two models that differ only in the text of String defaults *)
+Definition shape_default (d d' : option val) : Prop :=
+  match d, d' with
+  | Some (VStr _), Some (VStr _) => True
+  | _, _ => d = d'
+  end.
+Definition shape_field (fd fd' : fdef) : Prop :=
+  fd_name fd = fd_name fd' /\ fd_short fd = fd_short fd' /\ fd_type fd = fd_type fd' /\ fd_nullable fd = fd_nullable fd' /\
+  shape_default (fd_default fd) (fd_default fd').
+Definition same_model_up_to_string_defaults (m m' : emodel) : Prop :=
+  em_name m = em_name m' /\ em_short m = em_short m' /\ Forall2 shape_field (em_fields m) (em_fields m').
+
+(* two parameter lists that differ only in the text of internal (literal / default) entries *)
 Definition sim (vo vo' : list pentry) : Prop :=
   Forall2 (fun p p' : pentry => fst p = fst p' /\ (fst p = false -> snd p = snd p')) vo vo'.
 
@@ -33,63 +45,36 @@ Proof. intros vo vo' H. induction H; simpl; congruence. Qed.
 Lemma sim_app : forall a a' b b', sim a a' -> sim b b' -> sim (a ++ b) (a' ++ b').
 Proof. intros. apply Forall2_app; assumption. Qed.
 
-Lemma find_param_sim : forall n vo vo' k, sim vo vo' ->
-  (forall p, fm n vo = Some p -> fst p = false) -> (forall p, fm n vo' = Some p -> fst p = false) ->
-  find_param n vo k = find_param n vo' k.
+(* the slot of a variable is found among the variables only: literals play no role *)
+Lemma find_param_sim : forall n vo vo' k, sim vo vo' -> find_param n vo k = find_param n vo' k.
 Proof.
-  intros n vo vo' k H. revert k. induction H as [|p p' t t' (Hf & Hs) Hrest IH]; intros k H1 H2. reflexivity.
-  cbn [find_param]. unfold fm in H1, H2. cbn [find] in H1, H2.
-  destruct (str_eqb n (snd p)) eqn:E; destruct (str_eqb n (snd p')) eqn:E'.
-  - reflexivity.
-  - specialize (H1 p eq_refl). rewrite <- (Hs H1), E in E'. discriminate.
-  - specialize (H2 p' eq_refl). rewrite <- Hf in H2. rewrite (Hs H2), E' in E. discriminate.
-  - apply IH; assumption.
+  intros n vo vo' k H. revert k. induction H as [|p p' t t' (Hf & Hs) Hrest IH]; intros k. reflexivity.
+  cbn [find_param]. rewrite <- Hf. destruct (fst p) eqn:E; cbn [negb andb].
+  - apply IH.
+  - rewrite <- (Hs eq_refl). destruct (str_eqb n (snd p)). reflexivity. apply IH.
 Qed.
 
-Lemma add_param_var_sim : forall n vo vo' vo1 vo1' i i' vf vf',
-  sim vo vo' -> add_param vo n false = (vo1, i) -> add_param vo' n false = (vo1', i') ->
-  pfx vo1 vf -> pfx vo1' vf' -> var_ok vf n -> var_ok vf' n ->
-  i = i' /\ sim vo1 vo1'.
+Lemma add_param_var_sim : forall n vo vo' vo1 vo1' i i',
+  sim vo vo' -> add_param vo n false = (vo1, i) -> add_param vo' n false = (vo1', i') -> i = i' /\ sim vo1 vo1'.
 Proof.
-  intros n vo vo' vo1 vo1' i i' vf vf' Hs H H' Hp Hp' Hok Hok'. unfold add_param in H, H'.
-  assert (Hpv : pfx vo vf).
-  { destruct (find_param n vo 0); injection H as <- _. exact Hp. eapply pfx_trans; [apply pfx_app | exact Hp]. }
-  assert (Hpv' : pfx vo' vf').
-  { destruct (find_param n vo' 0); injection H' as <- _. exact Hp'. eapply pfx_trans; [apply pfx_app | exact Hp']. }
-  assert (Hfind : find_param n vo 0 = find_param n vo' 0).
-  { apply find_param_sim. exact Hs.
-    - intros p Hfm. apply Hok. destruct Hpv as [t ->]. apply fm_app_some. exact Hfm.
-    - intros p Hfm. apply Hok'. destruct Hpv' as [t ->]. apply fm_app_some. exact Hfm. }
-  rewrite <- Hfind in H'. destruct (find_param n vo 0).
+  intros n vo vo' vo1 vo1' i i' Hs H H'. unfold add_param in H, H'. rewrite <- (find_param_sim n vo vo' 0 Hs) in H'.
+  destruct (find_param n vo 0).
   - injection H as <- <-. injection H' as <- <-. split. reflexivity. exact Hs.
   - injection H as <- <-. injection H' as <- <-. split. rewrite (sim_length _ _ Hs). reflexivity.
     apply sim_app. exact Hs. constructor. split; auto. constructor.
 Qed.
 
 Lemma add_param_int_sim : forall s s' vo vo' vo1 vo1' i i',
-  sim vo vo' -> add_param vo s true = (vo1, i) -> add_param vo' s' true = (vo1', i') -> i = i' /\ sim vo1 vo1' /\ pfx vo vo1 /\ pfx vo' vo1'.
+  sim vo vo' -> add_param vo s true = (vo1, i) -> add_param vo' s' true = (vo1', i') -> i = i' /\ sim vo1 vo1'.
 Proof.
   intros s s' vo vo' vo1 vo1' i i' Hs H H'. unfold add_param in H, H'. injection H as <- <-. injection H' as <- <-.
-  split. rewrite (sim_length _ _ Hs). reflexivity. split. apply sim_app. exact Hs. constructor. split. reflexivity. intros Hc. discriminate. constructor.
-  split; apply pfx_app.
+  split. rewrite (sim_length _ _ Hs). reflexivity. apply sim_app. exact Hs. constructor. split. reflexivity. intros Hc. discriminate. constructor.
 Qed.
 
-Lemma add_param_pfx : forall vo v i vo1 k, add_param vo v i = (vo1, k) -> pfx vo vo1.
+Lemma operand_sx_sim : forall o o' vo vo' vo1 vo1' x x',
+  shape_operand o o' -> sim vo vo' -> operand_sx vo o = (vo1, x) -> operand_sx vo' o' = (vo1', x') -> x = x' /\ sim vo1 vo1'.
 Proof.
-  intros vo v i vo1 k H. unfold add_param in H. destruct i. injection H as <- _. apply pfx_app.
-  destruct (find_param v vo 0); injection H as <- _. apply pfx_refl. apply pfx_app.
-Qed.
-Lemma operand_sx_pfx : forall vo o vo1 x, operand_sx vo o = (vo1, x) -> pfx vo vo1.
-Proof. intros vo o vo1 x H. apply (operand_sx_sem _ _ _ _ H). Qed.
-
-Lemma operand_sx_sim : forall o o' vo vo' vo1 vo1' x x' vf vf',
-  shape_operand o o' -> sim vo vo' ->
-  operand_sx vo o = (vo1, x) -> operand_sx vo' o' = (vo1', x') ->
-  pfx vo1 vf -> pfx vo1' vf' ->
-  (forall n, o = OVar n -> var_ok vf n /\ var_ok vf' n) ->
-  x = x' /\ sim vo1 vo1'.
-Proof.
-  intros o o' vo vo' vo1 vo1' x x' vf vf' Hsh Hs H H' Hp Hp' Hok.
+  intros o o' vo vo' vo1 vo1' x x' Hsh Hs H H'.
   destruct o as [v|n].
   - destruct v as [|b|z|q|s].
     1-4: (simpl in Hsh; subst o'; cbn [operand_sx] in H, H'; injection H as <- <-; injection H' as <- <-; split; [reflexivity | exact Hs]).
@@ -97,19 +82,83 @@ Proof.
     cbn [operand_sx] in H, H'.
     destruct (add_param vo s true) as [a i] eqn:E. destruct (add_param vo' s0 true) as [a' i'] eqn:E'.
     injection H as <- <-. injection H' as <- <-.
-    destruct (add_param_int_sim _ _ _ _ _ _ _ _ Hs E E') as (-> & Hs1 & _). split. reflexivity. exact Hs1.
+    destruct (add_param_int_sim _ _ _ _ _ _ _ _ Hs E E') as (-> & Hs1). split. reflexivity. exact Hs1.
   - simpl in Hsh. subst o'. cbn [operand_sx] in H, H'.
     destruct (add_param vo n false) as [a i] eqn:E. destruct (add_param vo' n false) as [a' i'] eqn:E'.
-    injection H as <- <-. injection H' as <- <-. destruct (Hok n eq_refl) as [Ho Ho'].
-    destruct (add_param_var_sim _ _ _ _ _ _ _ _ _ Hs E E' Hp Hp' Ho Ho') as (-> & Hs1). split. reflexivity. exact Hs1.
+    injection H as <- <-. injection H' as <- <-.
+    destruct (add_param_var_sim _ _ _ _ _ _ _ Hs E E') as (-> & Hs1). split. reflexivity. exact Hs1.
 Qed.
 
-Lemma compile_filters_pfx : forall m q fs vo vo2 sfs, compile_filters m q vo fs = (vo2, sfs) -> pfx vo vo2.
-Proof. intros m q fs vo vo2 sfs H. apply (compile_filters_shape _ _ _ _ _ _ H). Qed.
-Lemma compile_eqs_pfx : forall kvs vo vo2 eqs, compile_eqs vo kvs = (vo2, eqs) -> pfx vo vo2.
-Proof. intros kvs vo vo2 eqs H. apply (compile_eqs_sem _ _ _ _ H). Qed.
-Lemma compile_disjs_pfx : forall before todo vo done vo2 ds, compile_disjs before vo done todo = (vo2, ds) -> pfx vo vo2.
-Proof. intros before todo vo done vo2 ds H. apply (compile_disjs_sem _ _ _ _ _ _ H). Qed.
+Definition shape_val (d d' : val) : Prop := match d, d' with VStr _, VStr _ => True | _, _ => d = d' end.
+
+Lemma default_sx_sim : forall d d' vo vo' vo1 vo1' x x',
+  shape_val d d' -> sim vo vo' -> default_sx vo d = (vo1, x) -> default_sx vo' d' = (vo1', x') -> x = x' /\ sim vo1 vo1'.
+Proof.
+  intros d d' vo vo' vo1 vo1' x x' Hsh Hs H H'.
+  destruct d as [|b|z|q|s].
+  1-4: (simpl in Hsh; subst d'; cbn [default_sx] in H, H'; injection H as <- <-; injection H' as <- <-; split; [reflexivity | exact Hs]).
+  destruct d'; simpl in Hsh; try discriminate. cbn [default_sx] in H, H'.
+  destruct (add_param vo s true) as [a i] eqn:E. destruct (add_param vo' s0 true) as [a' i'] eqn:E'.
+  injection H as <- <-. injection H' as <- <-.
+  destruct (add_param_int_sim _ _ _ _ _ _ _ _ Hs E E') as (-> & Hs1). split. reflexivity. exact Hs1.
+Qed.
+
+(* ---------- the model ---------- *)
+Lemma field_def_shape : forall m m' i, same_model_up_to_string_defaults m m' ->
+  match field_def m i, field_def m' i with
+  | Some a, Some b => shape_field a b
+  | None, None => True
+  | _, _ => False
+  end.
+Proof.
+  intros m m' i (_ & _ & H). unfold field_def. revert i. induction H as [|a b l l' Hab Hrest IH]; intros i; destruct i; simpl; auto.
+  apply IH.
+Qed.
+
+Lemma default_shape : forall m m' i, same_model_up_to_string_defaults m m' ->
+  shape_default (match field_def m i with Some fd => fd_default fd | None => None end)
+                (match field_def m' i with Some fd => fd_default fd | None => None end).
+Proof.
+  intros m m' i H. pose proof (field_def_shape m m' i H) as Hf.
+  destruct (field_def m i), (field_def m' i); try contradiction. apply Hf. reflexivity.
+Qed.
+
+Lemma sel_name_shape : forall m m' sf, same_model_up_to_string_defaults m m' -> sel_name m sf = sel_name m' sf.
+Proof.
+  intros m m' sf H. unfold sel_name. destruct (sf_alias sf). reflexivity.
+  pose proof (field_def_shape m m' (sf_field sf) H) as Hf.
+  destruct (field_def m (sf_field sf)), (field_def m' (sf_field sf)); try contradiction. apply Hf. reflexivity.
+Qed.
+
+Lemma field_short_shape : forall m m' i, same_model_up_to_string_defaults m m' -> field_short m i = field_short m' i.
+Proof.
+  intros m m' i H. unfold field_short. pose proof (field_def_shape m m' i H) as Hf.
+  destruct (field_def m i), (field_def m' i); try contradiction. apply Hf. reflexivity.
+Qed.
+
+Lemma compile_sel_sim : forall m m' sel vo vo' vo1 vo1' ss ss',
+  same_model_up_to_string_defaults m m' -> sim vo vo' ->
+  compile_sel m vo sel = (vo1, ss) -> compile_sel m' vo' sel = (vo1', ss') -> ss = ss' /\ sim vo1 vo1'.
+Proof.
+  intros m m' sel. induction sel as [|sf t IH]; intros vo vo' vo1 vo1' ss ss' Hm Hs H H'; cbn [compile_sel] in H, H'.
+  - injection H as <- <-. injection H' as <- <-. split. reflexivity. exact Hs.
+  - pose proof (default_shape m m' (sf_field sf) Hm) as Hd. rewrite (sel_name_shape m m' sf Hm) in H.
+    destruct (match field_def m (sf_field sf) with Some fd => fd_default fd | None => None end) as [d|];
+    destruct (match field_def m' (sf_field sf) with Some fd => fd_default fd | None => None end) as [d'|].
+    + destruct d as [|b|z|x|s].
+      1-4: (simpl in Hd; injection Hd as <-;
+            destruct (compile_sel m vo t) as [a r] eqn:E; destruct (compile_sel m' vo' t) as [a' r'] eqn:E';
+            injection H as <- <-; injection H' as <- <-; destruct (IH _ _ _ _ _ _ Hm Hs E E') as (-> & Hs1); split; [reflexivity | exact Hs1]).
+      destruct d'; simpl in Hd; try discriminate.
+      destruct (add_param vo s true) as [b i] eqn:A. destruct (add_param vo' s0 true) as [b' i'] eqn:A'.
+      destruct (add_param_int_sim _ _ _ _ _ _ _ _ Hs A A') as (-> & Hs0).
+      destruct (compile_sel m b t) as [a r] eqn:E; destruct (compile_sel m' b' t) as [a' r'] eqn:E'.
+      injection H as <- <-; injection H' as <- <-. destruct (IH _ _ _ _ _ _ Hm Hs0 E E') as (-> & Hs1). split; [reflexivity | exact Hs1].
+    + simpl in Hd. destruct d; discriminate.
+    + simpl in Hd. discriminate.
+    + destruct (compile_sel m vo t) as [a r] eqn:E; destruct (compile_sel m' vo' t) as [a' r'] eqn:E'.
+      injection H as <- <-; injection H' as <- <-. destruct (IH _ _ _ _ _ _ Hm Hs E E') as (-> & Hs1). split; [reflexivity | exact Hs1].
+Qed.
 
 Lemma filter_sop_shape : forall f f', shape_filter f f' ->
   match fl_val f, fl_op f with OLit VNull, OEq => SIs | OLit VNull, ONe => SIsNot | _, op => SCmp op end =
@@ -118,66 +167,61 @@ Proof.
   intros f f' (_ & Hop & Hv). rewrite <- Hop. destruct (fl_val f) as [[| | | |]|], (fl_val f') as [[| | | |]|]; simpl in Hv; try discriminate; try reflexivity.
 Qed.
 
-Lemma compile_filters_sim : forall m q q' fs fs' vo vo' vo2 vo2' sfs sfs' vf vf',
-  q_sel q = q_sel q' -> Forall2 shape_filter fs fs' -> sim vo vo' ->
-  compile_filters m q vo fs = (vo2, sfs) -> compile_filters m q' vo' fs' = (vo2', sfs') ->
-  pfx vo2 vf -> pfx vo2' vf' ->
-  (forall f n, In f fs -> fl_val f = OVar n -> var_ok vf n /\ var_ok vf' n) ->
+Lemma compile_filters_sim : forall m m' q q' fs fs' vo vo' vo2 vo2' sfs sfs',
+  same_model_up_to_string_defaults m m' -> q_sel q = q_sel q' -> Forall2 shape_filter fs fs' -> sim vo vo' ->
+  compile_filters m q vo fs = (vo2, sfs) -> compile_filters m' q' vo' fs' = (vo2', sfs') ->
   sfs = sfs' /\ sim vo2 vo2'.
 Proof.
-  intros m q q' fs fs' vo vo' vo2 vo2' sfs sfs' vf vf' Hsel HF. revert vo vo' vo2 vo2' sfs sfs'.
-  induction HF as [|f f' fs fs' Hff Hrest IH]; intros vo vo' vo2 vo2' sfs sfs' Hs H H' Hp Hp' Hok; cbn [compile_filters] in H, H'.
+  intros m m' q q' fs fs' vo vo' vo2 vo2' sfs sfs' Hm Hsel HF. revert vo vo' vo2 vo2' sfs sfs'.
+  induction HF as [|f f' fs fs' Hff Hrest IH]; intros vo vo' vo2 vo2' sfs sfs' Hs H H'; cbn [compile_filters] in H, H'.
   - injection H as <- <-. injection H' as <- <-. split. reflexivity. exact Hs.
-  - destruct (operand_sx vo (fl_val f)) as [vo1 xv] eqn:E1. destruct (compile_filters m q vo1 fs) as [vo3 rest] eqn:E2.
-    destruct (operand_sx vo' (fl_val f')) as [vo1' xv'] eqn:E1'. destruct (compile_filters m q' vo1' fs') as [vo3' rest'] eqn:E2'.
-    injection H as <- <-. injection H' as <- <-.
-    pose proof (compile_filters_pfx _ _ _ _ _ _ E2) as P2. pose proof (compile_filters_pfx _ _ _ _ _ _ E2') as P2'.
-    destruct Hff as (Hr & Hop & Hv).
-    destruct (operand_sx_sim _ _ _ _ _ _ _ _ vf vf' Hv Hs E1 E1') as (-> & Hs1).
-    { eapply pfx_trans; eauto. } { eapply pfx_trans; eauto. }
-    { intros n Hn. apply (Hok f n). left. reflexivity. exact Hn. }
-    destruct (IH _ _ _ _ _ _ Hs1 E2 E2' Hp Hp') as (-> & Hs2).
-    { intros f0 n Hin. apply Hok. right. exact Hin. }
-    split; [|exact Hs2]. f_equal.
-    rewrite (filter_sop_shape f f' (conj Hr (conj Hop Hv))). rewrite <- Hr.
-    assert (Hrf : ref_field q (fl_ref f) = ref_field q' (fl_ref f)) by (unfold ref_field; rewrite Hsel; reflexivity).
-    rewrite Hrf. reflexivity.
+  - destruct (operand_sx vo (fl_val f)) as [vo1 xv] eqn:E1. destruct (operand_sx vo' (fl_val f')) as [vo1' xv'] eqn:E1'.
+    pose proof Hff as (Hr & Hop & Hv).
+    destruct (operand_sx_sim _ _ _ _ _ _ _ _ Hv Hs E1 E1') as (-> & Hs1).
+    rewrite (filter_sop_shape f f' Hff) in H. rewrite <- Hr in H'.
+    assert (Hrf : ref_field q' (fl_ref f) = ref_field q (fl_ref f)) by (unfold ref_field; rewrite Hsel; reflexivity).
+    rewrite Hrf in H'.
+    destruct (ref_field q (fl_ref f)) as [i|].
+    + pose proof (default_shape m m' i Hm) as Hd.
+      destruct (match field_def m i with Some fd => fd_default fd | None => None end) as [d|];
+      destruct (match field_def m' i with Some fd => fd_default fd | None => None end) as [d'|].
+      * assert (Hsv : shape_val d d'). { destruct d, d'; simpl in Hd |- *; try exact I; congruence. }
+        destruct (default_sx vo1 d) as [b dx] eqn:D. destruct (default_sx vo1' d') as [b' dx'] eqn:D'.
+        destruct (default_sx_sim _ _ _ _ _ _ _ _ Hsv Hs1 D D') as (-> & Hs2).
+        destruct (compile_filters m q b fs) as [a r] eqn:E. destruct (compile_filters m' q' b' fs') as [a' r'] eqn:E'.
+        injection H as <- <-. injection H' as <- <-. destruct (IH _ _ _ _ _ _ Hs2 E E') as (-> & Hs3). split; [reflexivity | exact Hs3].
+      * simpl in Hd. destruct d; discriminate.
+      * simpl in Hd. discriminate.
+      * destruct (compile_filters m q vo1 fs) as [a r] eqn:E. destruct (compile_filters m' q' vo1' fs') as [a' r'] eqn:E'.
+        injection H as <- <-. injection H' as <- <-. destruct (IH _ _ _ _ _ _ Hs1 E E') as (-> & Hs3). split; [reflexivity | exact Hs3].
+    + destruct (compile_filters m q vo1 fs) as [a r] eqn:E. destruct (compile_filters m' q' vo1' fs') as [a' r'] eqn:E'.
+      injection H as <- <-. injection H' as <- <-. destruct (IH _ _ _ _ _ _ Hs1 E E') as (-> & Hs3). split; [reflexivity | exact Hs3].
 Qed.
 
 Definition shape_pair (ko ko' : okey * operand) : Prop := fst ko = fst ko' /\ shape_operand (snd ko) (snd ko').
 
-Lemma compile_eqs_sim : forall kvs kvs' vo vo' vo2 vo2' eqs eqs' vf vf',
+Lemma compile_eqs_sim : forall kvs kvs' vo vo' vo2 vo2' eqs eqs',
   Forall2 shape_pair kvs kvs' -> sim vo vo' ->
-  compile_eqs vo kvs = (vo2, eqs) -> compile_eqs vo' kvs' = (vo2', eqs') ->
-  pfx vo2 vf -> pfx vo2' vf' ->
-  (forall ko n, In ko kvs -> snd ko = OVar n -> var_ok vf n /\ var_ok vf' n) ->
-  eqs = eqs' /\ sim vo2 vo2'.
+  compile_eqs vo kvs = (vo2, eqs) -> compile_eqs vo' kvs' = (vo2', eqs') -> eqs = eqs' /\ sim vo2 vo2'.
 Proof.
-  intros kvs kvs' vo vo' vo2 vo2' eqs eqs' vf vf' HF. revert vo vo' vo2 vo2' eqs eqs'.
-  induction HF as [|[k o] [k' o'] t t' (Hk & Ho) Hrest IH]; intros vo vo' vo2 vo2' eqs eqs' Hs H H' Hp Hp' Hok; cbn [compile_eqs] in H, H'.
+  intros kvs kvs' vo vo' vo2 vo2' eqs eqs' HF. revert vo vo' vo2 vo2' eqs eqs'.
+  induction HF as [|[k o] [k' o'] t t' (Hk & Ho) Hrest IH]; intros vo vo' vo2 vo2' eqs eqs' Hs H H'; cbn [compile_eqs] in H, H'.
   - injection H as <- <-. injection H' as <- <-. split. reflexivity. exact Hs.
   - simpl in Hk, Ho. subst k'.
     destruct (operand_sx vo o) as [vo1 v] eqn:E1. destruct (compile_eqs vo1 t) as [vo3 rest] eqn:E2.
     destruct (operand_sx vo' o') as [vo1' v'] eqn:E1'. destruct (compile_eqs vo1' t') as [vo3' rest'] eqn:E2'.
     injection H as <- <-. injection H' as <- <-.
-    pose proof (compile_eqs_pfx _ _ _ _ E2) as P2. pose proof (compile_eqs_pfx _ _ _ _ E2') as P2'.
-    destruct (operand_sx_sim _ _ _ _ _ _ _ _ vf vf' Ho Hs E1 E1') as (-> & Hs1).
-    { eapply pfx_trans; eauto. } { eapply pfx_trans; eauto. }
-    { intros n Hn. apply (Hok (k, o) n). left. reflexivity. exact Hn. }
-    destruct (IH _ _ _ _ _ _ Hs1 E2 E2' Hp Hp') as (-> & Hs2).
-    { intros ko n Hin. apply Hok. right. exact Hin. }
-    split. reflexivity. exact Hs2.
+    destruct (operand_sx_sim _ _ _ _ _ _ _ _ Ho Hs E1 E1') as (-> & Hs1).
+    destruct (IH _ _ _ _ _ _ Hs1 E2 E2') as (-> & Hs2). split. reflexivity. exact Hs2.
 Qed.
 
-Lemma compile_disjs_sim : forall before todo todo' vo vo' done done' vo2 vo2' ds ds' vf vf',
+Lemma compile_disjs_sim : forall before todo todo' vo vo' done done' vo2 vo2' ds ds',
   Forall2 shape_pair todo todo' -> Forall2 shape_pair done done' -> sim vo vo' ->
   compile_disjs before vo done todo = (vo2, ds) -> compile_disjs before vo' done' todo' = (vo2', ds') ->
-  pfx vo2 vf -> pfx vo2' vf' ->
-  (forall ko n, In ko (done ++ todo) -> snd ko = OVar n -> var_ok vf n /\ var_ok vf' n) ->
   ds = ds' /\ sim vo2 vo2'.
 Proof.
-  intros before todo todo' vo vo' done done' vo2 vo2' ds ds' vf vf' HF. revert vo vo' done done' vo2 vo2' ds ds'.
-  induction HF as [|[k o] [k' o'] t t' (Hk & Ho) Hrest IH]; intros vo vo' done done' vo2 vo2' ds ds' Hd Hs H H' Hp Hp' Hok; cbn [compile_disjs] in H, H'.
+  intros before todo todo' vo vo' done done' vo2 vo2' ds ds' HF. revert vo vo' done done' vo2 vo2' ds ds'.
+  induction HF as [|[k o] [k' o'] t t' (Hk & Ho) Hrest IH]; intros vo vo' done done' vo2 vo2' ds ds' Hd Hs H H'; cbn [compile_disjs] in H, H'.
   - injection H as <- <-. injection H' as <- <-. split. reflexivity. exact Hs.
   - simpl in Hk, Ho. subst k'.
     destruct (compile_eqs vo done) as [vo1 eqs] eqn:E1. destruct (operand_sx vo1 o) as [vo3 v] eqn:E2.
@@ -185,98 +229,34 @@ Proof.
     destruct (compile_eqs vo' done') as [vo1' eqs'] eqn:E1'. destruct (operand_sx vo1' o') as [vo3' v'] eqn:E2'.
     destruct (compile_disjs before vo3' (done' ++ [(k, o')]) t') as [vo4' rest'] eqn:E3'.
     injection H as <- <-. injection H' as <- <-.
-    pose proof (operand_sx_pfx _ _ _ _ E2) as P2. pose proof (operand_sx_pfx _ _ _ _ E2') as P2'.
-    pose proof (compile_disjs_pfx _ _ _ _ _ _ E3) as P3. pose proof (compile_disjs_pfx _ _ _ _ _ _ E3') as P3'.
-    destruct (compile_eqs_sim _ _ _ _ _ _ _ _ vf vf' Hd Hs E1 E1') as (-> & Hs1).
-    { eapply pfx_trans. exact P2. eapply pfx_trans; eauto. } { eapply pfx_trans. exact P2'. eapply pfx_trans; eauto. }
-    { intros ko n Hin. apply Hok. apply in_or_app. left. exact Hin. }
-    destruct (operand_sx_sim _ _ _ _ _ _ _ _ vf vf' Ho Hs1 E2 E2') as (-> & Hs2).
-    { eapply pfx_trans; eauto. } { eapply pfx_trans; eauto. }
-    { intros n Hn. apply (Hok (k, o) n). apply in_or_app. right. left. reflexivity. exact Hn. }
+    destruct (compile_eqs_sim _ _ _ _ _ _ _ _ Hd Hs E1 E1') as (-> & Hs1).
+    destruct (operand_sx_sim _ _ _ _ _ _ _ _ Ho Hs1 E2 E2') as (-> & Hs2).
     assert (Hd' : Forall2 shape_pair (done ++ [(k, o)]) (done' ++ [(k, o')])).
     { apply Forall2_app. exact Hd. constructor. split. reflexivity. exact Ho. constructor. }
-    destruct (IH _ _ _ _ _ _ _ _ Hd' Hs2 E3 E3' Hp Hp') as (-> & Hs3).
-    { intros ko n Hin. apply Hok. rewrite <- app_assoc in Hin. exact Hin. }
-    split. reflexivity. exact Hs3.
+    destruct (IH _ _ _ _ _ _ _ _ Hd' Hs2 E3 E3') as (-> & Hs3). split. reflexivity. exact Hs3.
 Qed.
 
-Lemma limit_sx_sim : forall o vo vo' vo1 vo1' x x' vf vf',
-  sim vo vo' -> limit_sx vo o = (vo1, x) -> limit_sx vo' o = (vo1', x') ->
-  pfx vo1 vf -> pfx vo1' vf' -> (forall n, o = OVar n -> var_ok vf n /\ var_ok vf' n) ->
-  x = x' /\ sim vo1 vo1'.
+Lemma limit_sx_sim : forall o vo vo' vo1 vo1' x x',
+  sim vo vo' -> limit_sx vo o = (vo1, x) -> limit_sx vo' o = (vo1', x') -> x = x' /\ sim vo1 vo1'.
 Proof.
-  intros o vo vo' vo1 vo1' x x' vf vf' Hs H H' Hp Hp' Hok. destruct o as [v|n]; cbn [limit_sx] in H, H'.
+  intros o vo vo' vo1 vo1' x x' Hs H H'. destruct o as [v|n]; cbn [limit_sx] in H, H'.
   - destruct v; injection H as <- <-; injection H' as <- <-; split; try reflexivity; exact Hs.
   - destruct (add_param vo n false) as [a i] eqn:E. destruct (add_param vo' n false) as [a' i'] eqn:E'.
-    injection H as <- <-. injection H' as <- <-. destruct (Hok n eq_refl) as [Ho Ho'].
-    destruct (add_param_var_sim _ _ _ _ _ _ _ _ _ Hs E E' Hp Hp' Ho Ho') as (-> & Hs1). split. reflexivity. exact Hs1.
-Qed.
-Lemma limit_sx_pfx : forall vo o vo1 x, limit_sx vo o = (vo1, x) -> pfx vo vo1.
-Proof. intros vo o vo1 x H. apply (limit_sx_sem _ _ _ _ H). Qed.
-
-Lemma shape_operand_vars : forall l l', Forall2 shape_operand l l' ->
-  flat_map (fun o => match o with OVar n => [n] | _ => [] end) l = flat_map (fun o => match o with OVar n => [n] | _ => [] end) l'.
-Proof.
-  intros l l' H. induction H as [|o o' l l' Ho Hrest IH]. reflexivity.
-  cbn [flat_map]. rewrite IH. f_equal.
-  destruct o as [[| | | |]|], o' as [[| | | |]|]; simpl in Ho; try discriminate; try reflexivity; congruence.
+    injection H as <- <-. injection H' as <- <-.
+    destruct (add_param_var_sim _ _ _ _ _ _ _ Hs E E') as (-> & Hs1). split. reflexivity. exact Hs1.
 Qed.
 
-Lemma shape_vars : forall q q', same_shape q q' -> query_vars q = query_vars q'.
+(* ---------- the statement ---------- *)
+Theorem nostructure_stmt : forall m m' q q',
+  same_model_up_to_string_defaults m m' -> same_shape q q' -> snd (compile m q) = snd (compile m' q').
 Proof.
-  intros q q' (_ & _ & Hf & _ & Hfi & Hsk & Hp). unfold query_vars. apply shape_operand_vars.
-  apply Forall2_app.
-  - clear -Hf. induction Hf as [|f f' l l' (_ & _ & Hv) Hrest IH]; cbn [map]; constructor; assumption.
-  - apply Forall2_app.
-    + unfold shape_paging in Hp. destruct (q_paging q), (q_paging q'); try contradiction; cbn [paging_values]; try constructor; exact Hp.
-    + rewrite Hfi, Hsk. clear. induction ([q_first q'] ++ match q_skip q' with Some o => [o] | None => [] end) as [|o l IH]; constructor.
-      destruct o as [[| | | |]|]; simpl; auto. exact IH.
-Qed.
-
-Lemma capture_var_ok : forall m q vf s, compile m q = (vf, s) -> k_capture m q = false -> forall n, In n (query_vars q) -> var_ok vf n.
-Proof.
-  intros m q vf s Ec K n Hn p Hfm. destruct (fst p) eqn:E; [exfalso | reflexivity].
-  unfold k_capture in K. rewrite Ec in K. cbn [fst] in K.
-  assert (Hex : existsb (fun n0 => match find (fun p0 : pentry => str_eqb n0 (snd p0)) vf with Some p0 => fst p0 | None => false end) (query_vars q) = true).
-  { apply existsb_exists. exists n. split. exact Hn. unfold fm in Hfm. rewrite Hfm. exact E. }
-  congruence.
-Qed.
-
-Lemma in_vars : forall (l : list operand) o n, In o l -> o = OVar n ->
-  In n (flat_map (fun o => match o with OVar n => [n] | _ => [] end) l).
-Proof. intros l o n Hin ->. apply in_flat_map. exists (OVar n). split. exact Hin. left. reflexivity. Qed.
-
-Theorem nostructure_stmt : forall m q q',
-  same_shape q q' -> k_capture m q = false -> k_capture m q' = false ->
-  snd (compile m q) = snd (compile m q').
-Proof.
-  intros m q q' Hsh K K'. pose proof (shape_vars q q' Hsh) as Hvars.
-  destruct Hsh as (Hal & Hsel & Hfl & Hord & Hfi & Hsk & Hpg).
-  destruct (compile m q) as [vf s] eqn:Ec. destruct (compile m q') as [vf' s'] eqn:Ec'. cbn [snd].
-  pose proof (capture_var_ok m q vf s Ec K) as Hok. pose proof (capture_var_ok m q' vf' s' Ec' K') as Hok'. rewrite <- Hvars in Hok'.
-  unfold compile in Ec, Ec'. rewrite <- Hsel in Ec'.
-  destruct (compile_sel m [] (q_sel q)) as [vo1 sel] eqn:E1.
+  intros m m' q q' Hm (Hal & Hsel & Hfl & Hord & Hfi & Hsk & Hpg).
+  unfold compile. rewrite <- Hsel.
+  destruct (compile_sel m [] (q_sel q)) as [vo1 sel] eqn:E1. destruct (compile_sel m' [] (q_sel q)) as [vo1' sel'] eqn:E1'.
+  destruct (compile_sel_sim m m' _ _ _ _ _ _ _ Hm (sim_refl []) E1 E1') as (-> & S1).
   destruct (compile_filters m q vo1 (q_filters q)) as [vo2 fs] eqn:E2.
-  destruct (compile_filters m q' vo1 (q_filters q')) as [vo2' fs'] eqn:E2'.
-  destruct (compile_disjs (is_before (q_paging q)) vo2 [] (combine (q_order q) (paging_values (q_paging q)))) as [vo3 pg] eqn:E3.
-  destruct (compile_disjs (is_before (q_paging q')) vo2' [] (combine (q_order q') (paging_values (q_paging q')))) as [vo3' pg'] eqn:E3'.
-  destruct (compile_limit vo3 q) as [[vo4 lim] off] eqn:E4. destruct (compile_limit vo3' q') as [[vo4' lim'] off'] eqn:E4'.
-  injection Ec as <- <-. injection Ec' as <- <-.
-  (* prefixes *)
-  pose proof (compile_disjs_pfx _ _ _ _ _ _ E3) as P3. pose proof (compile_disjs_pfx _ _ _ _ _ _ E3') as P3'.
-  assert (P4 : pfx vo3 vo4). { unfold compile_limit in E4. destruct (limit_sx vo3 (q_first q)) as [a l1] eqn:A.
-    pose proof (limit_sx_pfx _ _ _ _ A). destruct (q_skip q). destruct (limit_sx a o) as [b l2] eqn:B. injection E4 as <- _ _.
-    eapply pfx_trans; eauto. eapply limit_sx_pfx; eauto. injection E4 as <- _ _. assumption. }
-  assert (P4' : pfx vo3' vo4'). { unfold compile_limit in E4'. destruct (limit_sx vo3' (q_first q')) as [a l1] eqn:A.
-    pose proof (limit_sx_pfx _ _ _ _ A). destruct (q_skip q'). destruct (limit_sx a o) as [b l2] eqn:B. injection E4' as <- _ _.
-    eapply pfx_trans; eauto. eapply limit_sx_pfx; eauto. injection E4' as <- _ _. assumption. }
-  (* filters *)
-  destruct (compile_filters_sim m q q' _ _ _ _ _ _ _ _ vo4 vo4' Hsel Hfl (sim_refl vo1) E2 E2') as (-> & S2).
-  { eapply pfx_trans; eauto. } { eapply pfx_trans; eauto. }
-  { intros f n Hin Hv. assert (Hn : In n (query_vars q)).
-    { unfold query_vars. eapply in_vars; [|exact Hv]. apply in_or_app. left. apply in_map. exact Hin. }
-    split; [apply Hok | apply Hok']; exact Hn. }
-  (* paging *)
+  destruct (compile_filters m' q' vo1' (q_filters q')) as [vo2' fs'] eqn:E2'.
+  destruct (compile_filters_sim m m' q q' _ _ _ _ _ _ _ _ Hm Hsel Hfl S1 E2 E2') as (-> & S2).
   assert (Hbefore : is_before (q_paging q) = is_before (q_paging q')).
   { unfold shape_paging in Hpg. destruct (q_paging q), (q_paging q'); try contradiction; reflexivity. }
   assert (Hpairs : Forall2 shape_pair (combine (q_order q) (paging_values (q_paging q))) (combine (q_order q') (paging_values (q_paging q')))).
@@ -286,41 +266,63 @@ Proof.
     clear -Hvals. revert Hvals. generalize (paging_values (q_paging q)) (paging_values (q_paging q')) (q_order q).
     intros l l' ord H. revert ord. induction H as [|o o' l l' Ho Hrest IH]; intros ord; destruct ord as [|k ord]; cbn [combine]; try constructor.
     split. reflexivity. exact Ho. apply IH. }
-  rewrite <- Hbefore in E3'.
-  destruct (compile_disjs_sim _ _ _ _ _ _ _ _ _ _ _ vo4 vo4' Hpairs (Forall2_nil _) S2 E3 E3' P4 P4') as (-> & S3).
-  { intros ko n Hin Hv. cbn [app] in Hin. assert (Hn : In n (query_vars q)).
-    { unfold query_vars. eapply in_vars; [|exact Hv]. apply in_or_app. right. apply in_or_app. left.
-      destruct ko as [k o]. eapply in_combine_r. exact Hin. }
-    split; [apply Hok | apply Hok']; exact Hn. }
-  (* first / skip *)
-  unfold compile_limit in E4, E4'. rewrite <- Hfi, <- Hsk in E4'.
+  rewrite <- Hbefore.
+  destruct (compile_disjs (is_before (q_paging q)) vo2 [] (combine (q_order q) (paging_values (q_paging q)))) as [vo3 pg] eqn:E3.
+  destruct (compile_disjs (is_before (q_paging q)) vo2' [] (combine (q_order q') (paging_values (q_paging q')))) as [vo3' pg'] eqn:E3'.
+  destruct (compile_disjs_sim _ _ _ _ _ _ _ _ _ _ _ Hpairs (Forall2_nil _) S2 E3 E3') as (-> & S3).
+  unfold compile_limit. rewrite <- Hfi, <- Hsk.
   destruct (limit_sx vo3 (q_first q)) as [a l1] eqn:A. destruct (limit_sx vo3' (q_first q)) as [a' l1'] eqn:A'.
-  assert (Hfirst : l1 = l1' /\ sim a a').
-  { apply (limit_sx_sim (q_first q) vo3 vo3' a a' l1 l1' vo4 vo4' S3 A A').
-    - destruct (q_skip q). destruct (limit_sx a o) as [b l2] eqn:B. injection E4 as <- _ _. eapply limit_sx_pfx; eauto. injection E4 as <- _ _. apply pfx_refl.
-    - destruct (q_skip q). destruct (limit_sx a' o) as [b l2] eqn:B. injection E4' as <- _ _. eapply limit_sx_pfx; eauto. injection E4' as <- _ _. apply pfx_refl.
-    - intros n Hn. assert (Hin : In n (query_vars q)).
-      { unfold query_vars. eapply in_vars; [|exact Hn]. apply in_or_app. right. apply in_or_app. right. apply in_or_app. left. left. reflexivity. }
-      split; [apply Hok | apply Hok']; exact Hin. }
-  destruct Hfirst as [-> S4].
-  destruct (q_skip q) as [so|] eqn:Esk.
+  destruct (limit_sx_sim _ _ _ _ _ _ _ S3 A A') as (-> & S4).
+  destruct Hm as (Hn & Hs & _).
+  destruct (q_skip q) as [so|].
   - destruct (limit_sx a so) as [b l2] eqn:B. destruct (limit_sx a' so) as [b' l2'] eqn:B'.
-    injection E4 as <- <- <-. injection E4' as <- <- <-.
-    destruct (limit_sx_sim so a a' _ _ _ _ _ _ S4 B B' (pfx_refl _) (pfx_refl _)) as (-> & _).
-    { intros n Hn. assert (Hin : In n (query_vars q)).
-      { unfold query_vars. rewrite Esk. eapply in_vars; [|exact Hn]. apply in_or_app. right. apply in_or_app. right. apply in_or_app. right. left. reflexivity. }
-      split; [apply Hok | apply Hok']; exact Hin. }
-    unfold sql_aliased_name. rewrite Hal, Hord. reflexivity.
-  - injection E4 as <- <- <-. injection E4' as <- <- <-.
-    unfold sql_aliased_name. rewrite Hal, Hord. reflexivity.
+    destruct (limit_sx_sim _ _ _ _ _ _ _ S4 B B') as (-> & _).
+    cbn [snd]. unfold sql_aliased_name. rewrite Hal, Hord, Hn, Hs. reflexivity.
+  - cbn [snd]. unfold sql_aliased_name. rewrite Hal, Hord, Hn, Hs. reflexivity.
 Qed.
 
-(* the SQL text does not depend on the characters of the String literals of the query *)
-Theorem nostructure : forall m q q',
-  same_shape q q' -> k_capture m q = false -> k_capture m q' = false -> sql_text m q = sql_text m q'.
-Proof. intros m q q' H K K'. unfold sql_text. rewrite (nostructure_stmt m q q' H K K'). reflexivity. Qed.
+(* the printer reads the model only through the short names of the fields *)
+Lemma print_ref_shape : forall m m' names x, same_model_up_to_string_defaults m m' -> print_ref m names x = print_ref m' names x.
+Proof. intros m m' names x H. destruct x; cbn [print_ref]; try reflexivity. rewrite (field_short_shape m m' i H). reflexivity. Qed.
 
-(* in particular for the neutral version used by the harness *)
+Lemma print_shape : forall m m' s, same_model_up_to_string_defaults m m' -> print m s = print m' s.
+Proof.
+  intros m m' s H.
+  assert (Hsel : forall names l, map (print_sel m names) l = map (print_sel m' names) l).
+  { intros names l. apply map_ext. intros x. unfold print_sel. rewrite (field_short_shape m m' _ H).
+    destruct (ss_default x); [rewrite (print_ref_shape m m' names s0 H)|]; reflexivity. }
+  assert (Hfil : forall names l, map (print_filter m names) l = map (print_filter m' names) l).
+  { intros names l. apply map_ext. intros f. destruct f; cbn [print_filter]; rewrite ?(print_ref_shape m m' names _ H); reflexivity. }
+  assert (Hdis : forall names b l, map (print_disj m names b) l = map (print_disj m' names b) l).
+  { intros names b l. apply map_ext. intros d. unfold print_disj. destruct (pd_last d) as [[x op] v].
+    rewrite !(print_ref_shape m m' names _ H).
+    assert (Hfm : flat_map (fun e : sx * sx => print_ref m names (fst e) ++ lit " = " ++ print_ref m names (snd e) ++ lit " AND ") (pd_eqs d)
+                = flat_map (fun e : sx * sx => print_ref m' names (fst e) ++ lit " = " ++ print_ref m' names (snd e) ++ lit " AND ") (pd_eqs d)).
+    { induction (pd_eqs d) as [|e t IH]. reflexivity. cbn [flat_map]. rewrite IH, !(print_ref_shape m m' names _ H). reflexivity. }
+    rewrite Hfm. reflexivity. }
+  assert (Hord : forall names l, map (print_order m names) l = map (print_order m' names) l).
+  { intros names l. apply map_ext. intros o. unfold print_order. rewrite (print_ref_shape m m' names _ H). reflexivity. }
+  unfold print.
+  destruct (st_sel s) as [|s1 sl]; destruct (st_filters s) as [|f1 fl]; destruct (st_paging s) as [|d1 dl]; destruct (st_order s) as [|o1 ol];
+    destruct (st_limit s) as [l|]; destruct (st_offset s) as [o|];
+    rewrite ?Hsel, ?Hfil, ?Hdis, ?Hord, ?(print_ref_shape m m' _ _ H); reflexivity.
+Qed.
+
+(* the SQL text depends neither on the characters of the String literals of the query nor on those of the
+   String defaults of the model *)
+Theorem nostructure : forall m m' q q',
+  same_model_up_to_string_defaults m m' -> same_shape q q' -> sql_text m q = sql_text m' q'.
+Proof.
+  intros m m' q q' Hm Hq. unfold sql_text. rewrite (nostructure_stmt m m' q q' Hm Hq), (print_shape m m' _ Hm). reflexivity.
+Qed.
+
+(* in particular for the neutral versions used by the harness *)
+Lemma model_shape_refl : forall m, same_model_up_to_string_defaults m m.
+Proof.
+  intros m. repeat split. induction (em_fields m) as [|fd l IH]; constructor. 2: exact IH.
+  repeat split. unfold shape_default. destruct (fd_default fd) as [[| | | |]|]; auto.
+Qed.
+
 Lemma neutral_same_shape : forall q, same_shape q (neutral_query q).
 Proof.
   intros q. unfold same_shape, neutral_query. cbn [q_alias q_sel q_filters q_order q_first q_skip q_paging].
@@ -332,31 +334,45 @@ Proof.
     destruct (q_paging q); simpl; auto.
 Qed.
 
-Theorem shape_spec : forall m q, known_C04 (CShape m q) = [] -> spec_C04 (CShape m q) (run_C04 (CShape m q)) = true.
+Lemma same_shape_refl : forall q, same_shape q q.
 Proof.
-  intros m q Hk. cbn [known_C04] in Hk. unfold cls in Hk.
-  destruct (k_capture m q || k_capture m (neutral_query q)) eqn:E; try discriminate.
-  apply orb_false_elim in E. destruct E as [K K'].
-  cbn [spec_C04 run_C04]. rewrite (nostructure m q (neutral_query q) (neutral_same_shape q) K K'), str_eqb_refl. reflexivity.
+  intros q. repeat split.
+  - induction (q_filters q) as [|f l IH]; constructor. 2: exact IH. repeat split. destruct (fl_val f) as [[| | | |]|]; simpl; auto.
+  - assert (H : forall vs, Forall2 shape_operand vs vs).
+    { induction vs as [|o vs IH]; constructor. destruct o as [[| | | |]|]; simpl; auto. exact IH. }
+    destruct (q_paging q); simpl; auto.
 Qed.
+
+Lemma neutral_model_shape : forall m, same_model_up_to_string_defaults m (neutral_model m).
+Proof.
+  intros m. unfold neutral_model. repeat split. cbn [em_fields].
+  induction (em_fields m) as [|fd l IH]; cbn [map]; constructor. 2: exact IH.
+  unfold shape_field. cbn [fd_name fd_short fd_type fd_nullable fd_default]. repeat split.
+  unfold shape_default. destruct (fd_default fd) as [[| | | |]|]; auto.
+Qed.
+
+Lemma str_eqb_refl' : forall a, str_eqb a a = true.
+Proof. intros a. apply str_eqb_eq. reflexivity. Qed.
+
+Theorem shape_holds : forall m q, spec_C04 (CShape m q) (run_C04 (CShape m q)) = true.
+Proof.
+  intros m q. cbn [spec_C04 run_C04].
+  rewrite (nostructure m m q (neutral_query q) (model_shape_refl m) (neutral_same_shape q)), str_eqb_refl'. reflexivity.
+Qed.
+
+(* the statement compiled under arbitrary String defaults is the statement compiled under neutral ones *)
+Theorem defaults_holds : forall m q, sql_text m q = sql_text (neutral_model m) q.
+Proof. intros m q. apply nostructure. apply neutral_model_shape. apply same_shape_refl. Qed.
 
 (* integers, floats, booleans: the model is the identity, the oracle asks for the identity *)
 Lemma zlist_eqb_refl : forall l, zlist_eqb l l = true.
 Proof. induction l as [|x l IH]. reflexivity. unfold zlist_eqb in *. cbn [list_eqb]. rewrite Z.eqb_refl, IH. reflexivity. Qed.
 Theorem scalars_spec : forall c,
-  match c with CInt _ _ | CBool _ _ => True | CFlt _ b tb de => b = tb /\ de = true | _ => False end ->
+  match c with CInt _ _ | CBool _ _ => True | CFlt _ b tb => b = tb | _ => False end ->
   spec_C04 c (run_C04 c) = true.
 Proof.
   intros c H. destruct c; try contradiction; cbn [spec_C04 run_C04].
   - apply zlist_eqb_refl.
-  - destruct H as [-> ->]. rewrite Z.eqb_refl. destruct h; apply zlist_eqb_refl.
+  - subst. rewrite Z.eqb_refl. destruct h; apply zlist_eqb_refl.
   - apply zlist_eqb_refl.
 Qed.
-
-(* the unrestricted property does not hold of the faithful model *)
-Definition C04_full : Prop :=
-  forall c, match c with
-            | CStr h w => intended h w <> None
-            | CFlt _ b tb _ => b = tb
-            | _ => True
-            end -> spec_C04 c (run_C04 c) = true.
